@@ -734,15 +734,15 @@ Version: {{ if .Info.Epoch}}{{ .Info.Epoch }}:{{ end }}{{.Info.Version}}
          {{- if .Info.Prerelease}}~{{ .Info.Prerelease }}{{- end }}
          {{- if .Info.VersionMetadata}}+{{ .Info.VersionMetadata }}{{- end }}
          {{- if .Info.Release}}-{{ .Info.Release }}{{- end }}
-Section: {{.Info.Section}}
-Priority: {{.Info.Priority}}
+Section: {{multiline .Info.Section}}
+Priority: {{multiline .Info.Priority}}
 Architecture: {{ if ne .Info.Platform "linux"}}{{ .Info.Platform }}-{{ end }}{{.Info.Arch}}
 {{- /* Optional fields */ -}}
 {{- if .Info.License }}
-License: {{.Info.License}}
+License: {{multiline .Info.License}}
 {{- end }}
 {{- if .Info.Maintainer}}
-Maintainer: {{.Info.Maintainer}}
+Maintainer: {{multiline .Info.Maintainer}}
 {{- end }}
 Installed-Size: {{.InstalledSize}}
 {{- with .Info.Replaces}}
@@ -770,13 +770,13 @@ Conflicts: {{join .}}
 Breaks: {{join .}}
 {{- end }}
 {{- if .Info.Homepage}}
-Homepage: {{.Info.Homepage}}
+Homepage: {{multiline .Info.Homepage}}
 {{- end }}
 {{- /* Mandatory fields */}}
 Description: {{multiline .Info.Description}}
 {{- range $key, $value := .Info.Deb.Fields }}
 {{- if $value }}
-{{$key}}: {{$value}}
+{{$key}}: {{multiline $value}}
 {{- end }}
 {{- end }}
 `
